@@ -784,6 +784,40 @@ fn gen_valid(r: &mut Rng, thorough: bool) -> (Vec<GMod>, Vec<String>, String) {
             }
         }
         mods.push(m);
+        // a whole-cluster connection that expands on two levels at once (`node/port` with node[s]
+        // and port[g]) against a hub cluster of s*g gates: the pairing order matters
+        if r.chance(1, 4) {
+            let cand: Vec<(String, usize, String, usize)> = mods[i]
+                .subs
+                .iter()
+                .filter(|(_, size, _)| *size >= 2)
+                .flat_map(|(sn, size, ty)| {
+                    mods[*ty].gates.iter().filter(|(_, gs)| *gs >= 2).map(move |(gn, gs)| (sn.clone(), *size, gn.clone(), *gs))
+                })
+                .collect();
+            if !cand.is_empty() && !mods[i].gates.iter().any(|g| g.0 == "hub") {
+                let (sn, ss, gn, gs) = r.pick(&cand).clone();
+                let clash = (0..ss).any(|a| (0..gs).any(|b| mods[i].used.contains(&format!("/{sn}[{a}]/{gn}[{b}]"))));
+                if !clash {
+                    mods[i].gates.push(("hub".to_string(), ss * gs));
+                    mods[i].lines.push(format!("gate {tag} hub[{}]", ss * gs));
+                    let l = if !link_names.is_empty() && r.chance(1, 2) { r.pick(&link_names).to_string() } else { "-".to_string() };
+                    if r.chance(1, 2) {
+                        mods[i].lines.push(format!("conn {tag} {sn}/{gn} hub {l}"));
+                    } else {
+                        mods[i].lines.push(format!("conn {tag} hub {sn}/{gn} {l}"));
+                    }
+                    for a in 0..ss {
+                        for b in 0..gs {
+                            mods[i].used.push(format!("/{sn}[{a}]/{gn}[{b}]"));
+                        }
+                    }
+                    for k in 0..ss * gs {
+                        mods[i].used.push(format!("/hub[{k}]"));
+                    }
+                }
+            }
+        }
         // connections
         for _ in 0..r.below(5) {
             let Some((a, n, ia)) = gen_endpoint(r, &mods, i, None) else { continue };
